@@ -38,4 +38,5 @@ def obligations(tier):
     for signed in (True, False):
         for neg in (False, True):
             L.append(ob("intQ/signed=%d/neg=%d" % (signed, neg), ".", "VerifC10IntQuoted", [signed, neg, 3, ""], covers=["refused"], max_seconds=600))
+    L.append(ob("float32/range", ".", "VerifC10Float32Range", [], covers=["refused", "accepted"], max_seconds=600))
     return L
